@@ -173,14 +173,15 @@ def toPF (rs : List Gen.Policy.Rule) : Gen.FnFilter.PolicyFilter :=
   { rules := rs.map (fun r => { tag := r.tag, is_prefix := r.isPrefix, action := ofAction r.action }) }
 
 /-- the loop with the early `return` of `PolicyFilter::filter` (first matching rule decides, prefix or exact
-    match, no match = `Error`) is the model's `filterEval`, for every rule list and every tag -/
+    match, no match = `Error`; `Rs.loopM` in the generated text) is the model's `filterEval`, for every rule list and
+    every tag; it never fails -/
 theorem C05_fn_policy_filter (rs : List Gen.Policy.Rule) (tag : String) :
-    (toPF rs).filter tag = ofAction (filterEval rs tag) := by
+    (toPF rs).filter tag = .ok (ofAction (filterEval rs tag)) := by
   unfold Gen.FnFilter.PolicyFilter.filter
   induction rs with
-  | nil => simp [toPF, filterEval, ofAction]
+  | nil => simp [toPF, filterEval, ofAction, Rs.loopM]
   | cons r rs ih =>
-    simp only [toPF, List.map_cons, List.findSome?_cons] at ih ⊢
+    simp only [toPF, List.map_cons, Rs.loopM] at ih ⊢
     simp only [filterEval, ruleMatches]
     by_cases hm : (if r.isPrefix = true then String.isPrefixOf r.tag tag else tag == r.tag) = true
     · simp [hm]
@@ -189,10 +190,11 @@ theorem C05_fn_policy_filter (rs : List Gen.Policy.Rule) (tag : String) :
 /-- `make_policy_error_with_filter`'s test `filter.filter(&tag) == FilterResult::Error` on the generated filter
     is the external `policy_filter_err` that the ties of this file instantiate (`filt p`) -/
 theorem C05_fn_filt_is_filter (p : Policy) (tag : String) :
-    filt p tag = ((toPF p.filter).filter tag == Gen.FnFilter.FilterResult.Error) := by
+    (toPF p.filter).filter tag
+      = .ok (if filt p tag = true then Gen.FnFilter.FilterResult.Error else Gen.FnFilter.FilterResult.Warn) := by
   rw [C05_fn_policy_filter]
   unfold filt
-  cases filterEval p.filter tag <;> decide
+  cases filterEval p.filter tag <;> rfl
 
 /-! ### `OnchainValidator::ensure_funding_buried_and_unspent` -/
 
@@ -640,7 +642,7 @@ example :
 
 /-- first-match semantics on overlapping rules, through the generated `PolicyFilter::filter` -/
 example : (toPF [⟨"policy-commitment-fee-range", false, .error⟩, ⟨"policy-", true, .warn⟩]).filter "policy-commitment-fee-range"
-    = .Error := by
+    = .ok .Error := by
   rw [C05_fn_policy_filter]; rfl
 
 example : ensureFundingBuried exPolicy ⟨1000, 0, 0⟩ 1 = .error .chain := by rfl
